@@ -15,6 +15,7 @@ import (
 	"os"
 	"path/filepath"
 	"sort"
+	"strings"
 )
 
 // Ctx is handed to each family generator.
@@ -32,6 +33,44 @@ type Ctx struct {
 	Replay  []string // when non-nil: ops lines to re-run instead of generating
 	opsF    *os.File
 	implF   *os.File
+	fam     *Family
+	w       *worker
+}
+
+// Exec runs one case on the real code (worker process unless the family is InProc).
+func (c *Ctx) Exec(body string) string {
+	if c.fam.InProc {
+		return safeExec(c.fam.Exec, body)
+	}
+	if c.w == nil {
+		c.w = startWorker(c.Family)
+	}
+	out, ok := c.w.call(body)
+	if !ok {
+		c.Stats.Count("worker_crash")
+		c.w = nil
+		return out
+	}
+	return out
+}
+
+// Do = Exec + Emit + Oracle.
+func (c *Ctx) Do(body string, nontrivial bool) (int, string) {
+	impl := c.Exec(body)
+	id := c.Emit(body, impl, nontrivial)
+	st := strings.SplitN(impl, " ", 2)[0]
+	c.Stats.Count("status:" + st)
+	if c.fam.Oracle != nil {
+		c.fam.Oracle(c, id, body, impl)
+	}
+	return id, impl
+}
+
+func (c *Ctx) closeWorker() {
+	if c.w != nil {
+		c.w.close()
+		c.w = nil
+	}
 }
 
 // OracleFailure is one case on which the property's own predicate failed on the implementation.
@@ -100,11 +139,21 @@ func (c *Ctx) OracleFail(id int, scope, what, op string) {
 
 func (c *Ctx) Flush() { c.ops.Flush(); c.impl.Flush() }
 
-type famFn func(c *Ctx)
+// A Family: Gen produces cases by calling c.Do(body, nontrivial); Exec runs ONE case on the real code and
+// returns its canonical output (it runs in a worker child process unless InProc, because a panic inside a
+// goroutine of the real code kills the process); Oracle evaluates the property's own predicate on the
+// implementation's output of one case.
+type Family struct {
+	Name   string
+	Gen    func(c *Ctx)
+	Exec   func(body string) string
+	Oracle func(c *Ctx, id int, body, impl string)
+	InProc bool
+}
 
-var families = map[string]famFn{}
+var families = map[string]*Family{}
 
-func register(name string, f famFn) { families[name] = f }
+func register(f *Family) { families[f.Name] = f }
 
 func main() {
 	if len(os.Args) < 2 {
@@ -168,7 +217,18 @@ func gen(args []string) {
 	if *replay != "" {
 		c.Replay = readLines(*replay)
 	}
-	f(c)
+	c.fam = f
+	if c.Replay != nil {
+		for _, l := range c.Replay {
+			parts := strings.SplitN(l, " ", 3)
+			if len(parts) == 3 {
+				c.Do(parts[2], true)
+			}
+		}
+	} else {
+		f.Gen(c)
+	}
+	c.closeWorker()
 	c.Flush()
 	opsF.Close()
 	implF.Close()
